@@ -235,6 +235,47 @@ def gen_degenerate(rng, cfg=None):
         cfg["scoring_method"], "euclid")}
 
 
+def gen_hidden(rng, cfg=None):
+    """Scene family `hidden_nodes` (seeded C10-r4m1): 5-node animals ≥ 300 px apart moving ≤ ½ px per frame;
+    in frames where a neighbour is absent (absence shorter than the window) a present animal has three of
+    its five keypoints flagged visible=False while their *stored* coordinates lie on the absent neighbour.
+    Hidden keypoints are missing for every consumer (`.numpy()` gives NaN), so identities must be kept."""
+    cfg = dict(cfg or rng.choice(all_configs()))
+    W = rng.choice([2, 3, 5])
+    cfg["window_size"] = W
+    cfg["instance_score_threshold"] = rng.choice([0.0, 0.5])
+    K = rng.choice([2, 2, 3])
+    F = rng.randint(4, 9)
+    pos = [[300.0 * a + rng.randrange(0, 32) / 16, 100.0 * (a % 2) + rng.randrange(0, 32) / 16] for a in range(K)]
+    absent = [0] * K
+    frames = []
+    for f in range(F):
+        for a in range(K):
+            pos[a][0] += rng.randrange(-8, 9) / 16
+            pos[a][1] += rng.randrange(-8, 9) / 16
+        present = set(range(K))
+        if f > 0:
+            for a in range(K):
+                if absent[a] + 1 <= W - 1 and rng.random() < 0.35 and len(present) > 1:
+                    present.discard(a)
+        gone = [a for a in range(K) if a not in present]
+        dets = []
+        for a in sorted(present):
+            if f > 0 and gone and rng.random() < 0.8:
+                o = rng.choice(gone)
+                dets.append([pos[a][0], pos[a][1], 0.9, a, 0, "five_hid", [pos[o][0], pos[o][1]]])
+            elif f > 0 and rng.random() < 0.15:
+                o = rng.choice([b for b in range(K) if b != a])
+                dets.append([pos[a][0], pos[a][1], 0.9, a, 0, "five_hid", [pos[o][0], pos[o][1]]])
+            else:
+                dets.append([pos[a][0], pos[a][1], 0.9, a, 0, "five"])
+        rng.shuffle(dets)
+        frames.append(dets)
+        for a in range(K):
+            absent[a] = 0 if a in present else absent[a] + 1
+    return {"cfg": cfg, "frames": frames, "family": "hidden_nodes"}
+
+
 def gen_circle(rng, cfg=None, laps_frames=100):
     """Scene family `circle` (seeded C10-r2m3): animals at opposite ends of a circle of radius 100 px
     walk around it (4.5° ≈ 7.9 px per frame) for more than a full lap, so each one walks over ground
@@ -490,6 +531,11 @@ def main(chk):
         cases.append(gen_degenerate(chk.rng, cfg=cfg))
     for _ in range(chk.n(70, 900)):
         cases.append(gen_degenerate(chk.rng))
+    # hidden-but-stored keypoints lying on an absent neighbour (seeded C10-r4m1)
+    for cfg in all_configs():
+        cases.append(gen_hidden(chk.rng, cfg=cfg))
+    for _ in range(chk.n(30, 500)):
+        cases.append(gen_hidden(chk.rng))
     # long revisiting trajectories (seeded C10-r2m3): local_queues + mean in every matcher / feature
     # combination, plus a few random configurations
     for cfg in [c for c in all_configs() if c["candidates_method"] == "local_queues"
